@@ -48,6 +48,8 @@ def main(argv=None):
             ctx.cov["states"] = max(1, ctx.cov["states"]); ctx.cov["transitions"] = max(1, ctx.cov["transitions"])
             if not ctx.cov["samples"]:
                 ctx.cov["samples"].append({"note": "aborted run"})
+            rc = core.finish(ctx, getattr(mod, "LEVEL", "model_checking"))
+            return rc if rc == 1 else 2          # only known findings so far: the machinery problem is what counts
         return core.finish(ctx, getattr(mod, "LEVEL", "model_checking"))
     except Exception:
         traceback.print_exc()
